@@ -367,7 +367,10 @@ def part_cmd(ctx, out):
         zs.append(s); obs.append(classify_ret(ret))
         out.count('cmd:status-list-form')
     for sg in sigs:
-        act = CmdAction([sys.executable, '-S', '-c', 'import os; os.kill(os.getpid(), %d)' % int(sg)], shell=False)
+        # the child first restores the default disposition: a check started under nohup / as a background job of a
+        # non-interactive shell hands SIGHUP / SIGINT down as ignored, and the child would then exit normally
+        act = CmdAction([sys.executable, '-S', '-c',
+                         'import os, signal\ntry:\n    signal.signal(%d, signal.SIG_DFL)\nexcept (OSError, ValueError):\n    pass\nos.kill(os.getpid(), %d)' % (int(sg), int(sg))], shell=False)
         with Streams():
             ret = act.execute()
         zs.append(-int(sg)); obs.append(classify_ret(ret))
